@@ -512,6 +512,11 @@ def corpus():
                    [st_printf('{}{}', [lit(1), {'src': '[shoutln 9]', 'expect': 10,
                                                   'pre': [{'k': 'println', 'v': {'src': 'p', 'expect': 9, 'pre': []}}]}])])],
         [fixed_job([shout], [st_printf('{} {}', [lit(1), nested])])],
+        # a bare println / print inside a routine that is called as a later value of a printf writes nothing of the printf's own values
+        [fixed_job(['define nl begin println return 7 end'],
+                   [st_printf('{} {}\\n', [lit(1), {'src': '[nl]', 'expect': 7, 'pre': [{'k': 'println0'}]}]), st_println(lit('done'))])],
+        [fixed_job(['define sp begin print return 7 end'],
+                   [st_printf('{} {} {}\\n', [lit(1), lit(2), {'src': '[sp]', 'expect': 7, 'pre': [{'k': 'print0'}]}])])],
         [fixed_job([shout], [st_print(nested)])],
         [fixed_job([], [st_print(lit(1)), st_printf('{:d}', [lit(2.5)])]), fixed_job([], [st_print(lit(3))])],
         [fixed_job([], [st_print(lit(1)), st_printf('{:d}', [lit(2.5)])]), fixed_job([], [st_print(lit(1)), st_printf('{:d}', [lit(2.5)])], again=True),
